@@ -150,7 +150,60 @@ def outer_product_unit(U):
             U.prove(f"outer.path{p}.out[{i},{j}]==a[{i}]*b[{j}]", P + [k >= 0, k < n], to_z3(out.read((i, j, k))) == to_z3(a.read((i, k))) * to_z3(b.read((j, k))))
 
 
-UNITS = [(f"basis.{k}", basis_unit(k)) for k in COORDS] + [(f"vector_to_cartesian.{g}", vector_to_cartesian_unit(g)) for g in GRIDS] + [("numba.outer_product", outer_product_unit)]
+def inner_product_unit(rank_a, rank_b):
+    """the compiled dot product (typed dispatch of NumbaBackend.make_inner_prod_operator on the ranks of the
+    operands, output allocated by the operator) equals sum_k a[.., k] b[k, ..]"""
+    def unit(U):
+        def body(it):
+            captured = {}
+            key = "NumbaBackend.make_inner_prod_operator"
+            it.local_def_overrides[(key, "dot_ol")] = lambda f: captured.setdefault("dot_ol", f)
+            it.local_def_overrides[(key, "get_rank")] = lambda f: (lambda arr: arr.attrs["rank"])
+            it.stub_names["get_common_numba_dtype"] = lambda *a: Opaque("dtype")
+            it.stub_names["nb_overload"] = lambda *a, **k: (lambda f: f)
+            cls = it.module_attr(it.load_module("pde.backends.numba.backend"), "NumbaBackend")
+            be = Instance(cls, {})
+            n = z3.Int("n")
+            it.ctx.assume(n >= 1)
+            dim = 3
+            grid = Instance(None, {"dim": dim, "num_axes": 1, "shape": (n,)}, name="grid")
+            field = Instance(None, {"grid": grid, "__isinstance__": ("VectorField", "DataFieldBase")}, name="field")
+            it.contracts[("pde.backends.base", "BackendBase.make_inner_prod_operator")] = lambda interp, args, kw: Opaque("python dot")
+            try:
+                it.call(it.getattr(be, "make_inner_prod_operator"), [field], {"conjugate": False})
+            except Exception:
+                if "dot_ol" not in captured:
+                    raise
+            ta = Instance(None, {"rank": rank_a}, name="type of a")
+            tb = Instance(None, {"rank": rank_b}, name="type of b")
+            impl = it.call(captured["dot_ol"], [ta, tb, None], {})
+            a = sym_array("a", (dim,) * rank_a + (n,))
+            b = sym_array("b", (dim,) * rank_b + (n,))
+            out = it.call(impl, [a, b], {})
+            return a, b, out, n, dim
+
+        for p, res in enumerate(explore_paths(U, body)):
+            P = prem_of(res.ctx)
+            if res.outcome != "return":
+                U.prove(f"dot.path{p}.returns_normally", P, z3.BoolVal(False), info={"exc": str(res.exc)})
+                continue
+            a, b, out, n, dim = res.value
+            c = z3.Int("cell")
+            Pc = P + [c >= 0, c < n]
+            free_a, free_b = rank_a - 1, rank_b - 1
+            U.prove(f"dot.path{p}.result_shape", P, z3.BoolVal(out.ndim == free_a + free_b + 1))
+            if out.ndim != free_a + free_b + 1:
+                continue
+            for ia in itertools.product(range(dim), repeat=free_a):
+                for ib in itertools.product(range(dim), repeat=free_b):
+                    want = sum(to_z3(a.read(ia + (k, c))) * to_z3(b.read((k,) + ib + (c,))) for k in range(dim))
+                    U.prove(f"dot.path{p}.out{list(ia + ib)}==sum_k_a[..k]*b[k..]", Pc, to_z3(out.read(ia + ib + (c,))) == want)
+
+    return unit
+
+
+UNITS = [(f"numba.inner_product[rank_a={ra},rank_b={rb}]", inner_product_unit(ra, rb)) for ra in (1, 2) for rb in (1, 2)]
+UNITS += [(f"basis.{k}", basis_unit(k)) for k in COORDS] + [(f"vector_to_cartesian.{g}", vector_to_cartesian_unit(g)) for g in GRIDS] + [("numba.outer_product", outer_product_unit)]
 
 
 def bounded(tier, seed):
@@ -165,4 +218,4 @@ def bounded(tier, seed):
 
 TRUSTED = ["sin/cos uninterpreted with sin^2+cos^2=1", "np.einsum('j...,ji...->i...') = sum_j comp_j rot_ji"]
 ASSUMPTIONS = ["grid axes / symmetric axes lists as declared by the grid classes (read: PolarSymGrid (r;phi), SphericalSymGrid (r;theta,phi), CylindricalSymGrid (r,z;phi))"]
-NOT_COVERED = ["VectorField.from_expression, dot products, interpolate_to_grid wiring: bounded native check only", "'commutes with divergence/gradient' is a corollary of C01 + this property, not a separate obligation"]
+NOT_COVERED = ["VectorField.from_expression, the numpy (einsum) dot product, interpolate_to_grid wiring: bounded native check only (the compiled dot and outer products are proved)", "'commutes with divergence/gradient' is a corollary of C01 + this property, not a separate obligation"]
